@@ -337,12 +337,14 @@ def assignDigests : List Nat → List Folder → List Bool → List Nat → Opti
         | none => none
         | some (d, c) => some (defined.take n ++ d, crcs.take n ++ c)
 
-/-- `SubstreamsInfo._read` (archiveinfo.py:566-610) -/
-def readSubStreams (folders : List Folder) : P SubStreams := do
+/-- `SubstreamsInfo._read` (archiveinfo.py:566-610); `total` is the size of the whole header
+    buffer: the declared stream counts are bounded by it before any list of that length is built -/
+def readSubStreams (total : Nat) (folders : List Folder) : P SubStreams := do
   let numfolders := folders.length
   let pid ← read1
   let (nums, pid) ← (if pid = some 0x0D then do
       let ns ← repeatP numfolders pNumber
+      if ns.sum > total * 8 then fail .bad7z else
       let pid ← read1
       pure (ns, pid)
     else pure (List.replicate numfolders 1, pid) : P (List Nat × Option Nat))
@@ -408,7 +410,7 @@ def writeSubStreams (s : SubStreams) : Option Bytes :=
 /-! ### StreamsInfo -/
 
 /-- `StreamsInfo.read` (archiveinfo.py:654-668) -/
-def readStreams : P Streams := do
+def readStreams (total : Nat) : P Streams := do
   let pid ← read1
   let (pk, pid) ← (if pid = some 0x06 then do
       let p ← readPackInfo
@@ -424,7 +426,7 @@ def readStreams : P Streams := do
       match fo with
       | none => fail .bad7z
       | some folders => do
-        let s ← readSubStreams folders
+        let s ← readSubStreams total folders
         let pid ← read1
         pure (some s, pid)
     else pure (none, pid) : P (Option SubStreams × Option Nat))
@@ -600,7 +602,7 @@ def writeFilesInfo (fixedSize : Bool) (fi : FilesInfo) (pos : Nat) : Bytes :=
 def readHeaderBody (total : Nat) : P Header := do
   let pid ← read1
   let (ms, pid) ← (if pid = some 0x04 then do
-      let s ← readStreams
+      let s ← readStreams total
       let pid ← read1
       pure (some s, pid)
     else pure (none, pid) : P (Option Streams × Option Nat))
@@ -624,7 +626,7 @@ def readNextHeader (buf : Bytes) : Except Err NextHeader :=
   match buf with
   | [] => .ok .empty
   | 0x01 :: rest => (readHeaderBody buf.length rest).map (fun r => .raw r.1)
-  | 0x17 :: rest => (readStreams rest).map (fun r => .encoded r.1)
+  | 0x17 :: rest => (readStreams buf.length rest).map (fun r => .encoded r.1)
   | _ => .error .malformed
 
 /-- `Header.write(file, afterheader, encoded=False)`: `pos` is `file.tell()` at entry -/
